@@ -11,6 +11,9 @@ use std::collections::HashMap;
 use std::net::SocketAddr;
 use std::slice::Iter;
 
+/// Maximum size of a status datagram.
+const PACKET_SIZE: usize = u16::MAX as usize;
+
 pub trait QuakeClient {
     type Player;
 
@@ -43,7 +46,8 @@ fn get_data_impl<Client: QuakeClient>(socket: &mut UdpSocket) -> GDResult<Vec<u8
         .concat(),
     )?;
 
-    let data = socket.receive(None)?;
+    // The whole status comes in one datagram, with many players it is larger than the default packet size
+    let data = socket.receive(Some(PACKET_SIZE))?;
     let mut bufferer = Buffer::<LittleEndian>::new(&data);
 
     if bufferer.read::<u32>()? != u32::MAX {
